@@ -12,7 +12,8 @@ Inductive op :=
 | Mul (f : fmtstr) (n : Z)                   (* f * n *)
 | Join (sep : fmtstr) (items : list operand) (* sep.join(items) *).
 
-Definition out := res (list cell * Z).
+(* cells of the result's runs, len(result), and the text as result.s reports it *)
+Definition out := res (list cell * Z * str).
 Definition case := (op * out)%type.
 
 Definition model (o : op) : res fmtstr :=
@@ -27,7 +28,7 @@ Definition model (o : op) : res fmtstr :=
 (* model = implementation: same cells, same len(), same exception *)
 Definition model_ok (c : case) : bool :=
   match model (fst c), snd c with
-  | Ok r, Ok (cs, n) => cells_eqb (cells r) cs && (len r =? n)
+  | Ok r, Ok (cs, n, s) => cells_eqb (cells r) cs && (len r =? n) && str_eqb (text r) s
   | Raise e, Raise e' => exn_eqb e e'
   | _, _ => false
   end.
@@ -49,7 +50,7 @@ Definition spec (o : op) : option (res (list cell)) :=
 Definition spec_ok (c : case) : bool :=
   match spec (fst c), snd c with
   | None, _ => true
-  | Some (Ok cs), Ok (cs', n) => cells_eqb cs cs' && (n =? Z.of_nat (length cs'))
+  | Some (Ok cs), Ok (cs', n, s) => cells_eqb cs cs' && (n =? Z.of_nat (length cs')) && str_eqb (map fst cs) s
   | Some (Raise e), Raise e' => exn_eqb e e'
   | _, _ => false
   end.
